@@ -34,8 +34,14 @@ func c12SyncKeywords(c *Ctx, p *core.Prog) {
 	mk := p.Pkg("pkg/models")
 	sk := p.Method("pkg/sql/parser", "Parser", "isStatementStartingKeyword")
 	ps := p.Method("pkg/sql/parser", "Parser", "parseStatement")
+	inlined := false
+	if sk == nil {
+		// the keyword test written out inside synchronize() itself
+		sk = p.Method("pkg/sql/parser", "Parser", "synchronize")
+		inlined = true
+	}
 	if mk == nil || sk == nil || ps == nil {
-		r.Fatal("anchor not found: pkg/models / (*Parser).isStatementStartingKeyword / parseStatement")
+		r.Fatal("anchor not found: pkg/models / (*Parser).isStatementStartingKeyword (or synchronize) / parseStatement")
 		return
 	}
 	names := map[int64]string{}
@@ -70,6 +76,12 @@ func c12SyncKeywords(c *Ctx, p *core.Prog) {
 		return out
 	}
 	sync := constsIn(sk)
+	if inlined {
+		// the loop's own terminators are not statement keywords
+		delete(sync, "EOF")
+		delete(sync, "Semicolon")
+		delete(sync, "SemiColon")
+	}
 	// the keyword set kept in a package-level lookup table: take the keys stored into it during package initialisation
 	for _, b := range sk.Blocks {
 		for _, in := range b.Instrs {
